@@ -34,7 +34,7 @@ def BOUNDS(tier):
 
 def REQUIRED_COVER(tier):
     return {'fill:1023/4', 'op:store_slice_consumed', 'op:snake', 'fits-exactly', 'overflow-by-one', 'range:257', 'range:0', 'depth:1023', 'read:route:plain', 'read:route:vm',
-            'read:exact', 'bfs', 'ref-limit'}
+            'read:exact', 'bfs', 'ref-limit', 'after-refusal'}
 
 
 LEAF = RC.RCell('1')
@@ -251,6 +251,41 @@ def case_state(rec, b, r):
             rec.outcome('fits-ok')
         else:
             rec.outcome('refused-ok')
+            # the builder goes on being used after it refused a store (sixth session, wave 9): whatever a refused composite store left
+            # behind, the capacity is enforced as before - one bit / one reference too many is refused, the cell taken is within the limits
+            cur_b, cur_r = len(bd.bits), len(bd.refs)
+            probes = [('store_bits', lambda: bd.store_bits('1' * (1024 - cur_b))), ('store_bytes', lambda: bd.store_bytes(b'\xa5' * ((1023 - cur_b) // 8 + 1))),
+                      ('store_uint', lambda: bd.store_uint(0, min(256, 1024 - cur_b)) if 1024 - cur_b <= 256 else (_ for _ in ()).throw(OverflowError('n/a')))]
+            for pname, probe in probes:
+                rec.trans()
+                try:
+                    probe()
+                    rec.violation(f'after-refusal:{op}', f'{name} was refused at {b} bits / {r} refs (builder then at {cur_b} / {cur_r}); after that {pname} of one bit more than '
+                                  f'the remaining room was ACCEPTED (builder now {len(bd.bits)} bits)', 'case_state', args)
+                    rec.outcome('AFTER-REFUSAL')
+                    break
+                except Exception:
+                    pass
+            else:
+                try:
+                    if cur_r == 4:
+                        try:
+                            bd.store_ref(to_lib(LEAF))
+                            rec.violation(f'after-refusal:{op}', f'{name} was refused; after that a fifth reference was accepted', 'case_state', args)
+                        except Exception:
+                            pass
+                    c = bd.end_cell()
+                    if len(c.bits) > 1023 or len(c.refs) > 4:
+                        rec.violation(f'after-refusal:{op}', f'{name} was refused; the cell taken afterwards has {len(c.bits)} bits / {len(c.refs)} refs', 'case_state', args)
+                    s2 = bd.to_slice()
+                    try:
+                        s2.load_bits(len(s2.bits) + 1)
+                        rec.violation(f'after-refusal:{op}', f'{name} was refused; an over-read on the slice taken from the builder afterwards returned data', 'case_state', args)
+                    except Exception:
+                        pass
+                except Exception as e:
+                    rec.violation(f'after-refusal:{op}', f'{name} was refused; end_cell / to_slice afterwards raised {exc_name(e)}: {e}', 'case_state', args)
+                rec.covered('after-refusal')
         if nb > 1 or nr:
             rec.nontriv(('t', b, r, name))
 
